@@ -94,7 +94,7 @@ func init() {
 		ID: "C16", Title: "Number/Dimension/URL/data-URI/media-type helpers match their definitions",
 		Sel: []Sel{
 			{Pattern: "parse.Number", Levels: "SF"}, {Pattern: "parse.Dimension", Levels: "SF"},
-			{Pattern: "parse.Mediatype", Levels: "S"}, {Pattern: "parse.DataURI", Levels: "SF"}, {Pattern: "parse.QuoteEntity", Levels: "S"},
+			{Pattern: "parse.Mediatype", Levels: "SF"}, {Pattern: "parse.DataURI", Levels: "SF"}, {Pattern: "parse.QuoteEntity", Levels: "S"},
 			{Pattern: "parse.EncodeURL", Levels: "SF"}, {Pattern: "parse.DecodeURL", Levels: "SF"}, {Pattern: "parse.decodeURL", Levels: "SF"}, {Pattern: "parse.AppendEscape", Levels: "S"},
 			{Pattern: "parse.EqualFold", Levels: "SF"}, {Pattern: "parse.ToLower", Levels: "SF"}, {Pattern: "parse.Copy", Levels: "SF"},
 			{Pattern: "parse.TrimWhitespace", Levels: "SF"}, {Pattern: "parse.IsAllWhitespace", Levels: "SF"},
@@ -104,7 +104,7 @@ func init() {
 		},
 		NotDecided: []string{
 			"EncodeURL/DecodeURL byte-for-byte functional behaviour and agreement with net/url (proved: both only write their own argument, and the tables escape every byte the matching decoder gives a meaning to: '%' and '+' for URLs, '%' for data URIs)",
-			"DataURI payload equality with encoding/base64 and Mediatype agreement with mime.ParseMediaType (external oracles; only memory safety is proved)",
+			"DataURI payload equality with encoding/base64 and Mediatype agreement with mime.ParseMediaType (external oracles); proved besides memory safety: a data URI reports a media type that does not start with ';' (text/plain when it has none), and Mediatype stops scanning only at the end of the input or at a byte that is neither padding nor a parameter separator (no parameter after spaces is left unread)",
 			"completeness of the ToHash tables (every listed name hashes to its constant: the FNV arithmetic over XOR is outside the integer encoding); proved are soundness (a non-zero result names exactly the argument) and the consistency of the generated data: every table entry is a declared constant, every constant occurs in the table, and each constant's offset and length select its own name in the text",
 		},
 		Technique: "deductive verification: Number(b) == closed-form longest-prefix spec over axiomatised digit-run ends; reference-definition postconditions for EqualFold/ToLower/TrimWhitespace/IsAllWhitespace and the whitespace tables; hash soundness; zero-annotation bounds obligations for the remaining helpers; VCs discharged by z3/cvc5",
